@@ -313,8 +313,11 @@ unsafe impl<const K: u8> RefCnt for Tp<K> {
     type Base = Obj;
 
     fn into_ptr(me: Self) -> *mut Obj {
+        // Not a count operation and not a dereference: the crate's compare_and_swap converts `new`
+        // only after the successful exchange, when another writer may already have taken the
+        // value out again and destroyed it. The property does not forbid that, so no ledger check.
+        step(hs::TP_INTO);
         let p = me.p.as_ptr();
-        me.obj().check_live("into_ptr");
         std::mem::forget(me);
         p
     }
